@@ -155,6 +155,22 @@ def mk_congruence_task(name, qual):
     return t
 
 
+def mk_length_task(name, qual):
+    """UNBOUNDED: every series of the sequential result has exactly one entry per input candle, for every input length: array lengths
+    are exact symbolic terms in the abstract execution of the real wrapper and kernels (pyvc/causal.py, lengths only) and the
+    obligation len == n is discharged by z3.  Can only prove; the bounded layers decide otherwise."""
+    def t(h):
+        from pyvc import causal
+        try:
+            r = causal.prove_one_entry_per_candle(h.repo, qual)
+        except causal.Unsupported as e:
+            raise OutOfSubset(f'outside the length prover\'s subset: {e}')
+        except (causal.NotProved, causal.Restart) as e:
+            raise OutOfSubset(f'length not provable: {str(e)[:200]}')
+        h.prove(True, f'{name}.one-entry-per-candle.for-every-input-length', {'backend': 'symbolic lengths + z3 (pyvc/causal.py)', 'series': r['fields']})
+    return t
+
+
 def mk_boundary_task(name):
     """BOUNDED, native, for EVERY indicator (also those proved by congruence, whose proof says nothing about the number of entries):
     both modes on the real code for lengths around the warm-up window and around the period, on random, trending, tied and
@@ -181,6 +197,8 @@ def tasks(tier):
         except KeyError:
             continue
         ts.append(Task('congruence.' + name, mk_congruence_task(name, qual), extra=dict(task_timeout_s=180)))
+        if name not in EXEMPT:
+            ts.append(Task('length.' + name, mk_length_task(name, qual), functions=[qual], extra=dict(task_timeout_s=120)))
         ts.append(Task('boundary.' + name, mk_boundary_task(name), extra=dict(task_timeout_s=300,
                        bounded='native: lengths 100..500 around the window (240) and P-1..2P around the period, four kinds of series')))
         if name in EXEMPT or (tier == 'quick' and name in HEAVY):
